@@ -11,10 +11,18 @@ open RM
 
 structure RMPred where
   P : {α : Type} → RM α → Prop
+  /-- the weaker predicate that the iteration of `each` satisfies (it rewrites the block it iterates in);
+      for most instances `Q = P` -/
+  Q : {α : Type} → RM α → Prop
+  sub : ∀ {α : Type} (x : RM α), P x → Q x
   ret : ∀ {α : Type} (a : α), P (RM.ret a)
   bnd : ∀ {α β : Type} (x : RM α) (f : α → RM β), P x → (∀ a, P (f a)) → P (RM.bnd x f)
+  qbnd : ∀ {α β : Type} (x : RM α) (f : α → RM β), Q x → (∀ a, Q (f a)) → Q (RM.bnd x f)
   get : P RM.get
-  modify : ∀ f, P (RM.modify f)
+  /-- updates outside the frame (write-state flags, template name, inline partials, local helpers, …) -/
+  modifyAux : ∀ f, P (RM.modifyAux f)
+  /-- `rc.block_mut()` of the iteration of `each` -/
+  frontMod : ∀ f, Q (modifyFrontBlock f)
   throw : ∀ {α : Type} (e : RenderError), P (RM.throw e : RM α)
   outOfFuel : ∀ {α : Type}, P (RM.outOfFuel : RM α)
   write : ∀ s, P (RM.write s)
@@ -22,7 +30,12 @@ structure RMPred where
       and a template name) -/
   mapErr : ∀ {α : Type} (x : RM α) (f : RenderError → RenderError), (∀ e, (f e).reason = e.reason) → P x → P (RM.mapErr x f)
   captured : ∀ {α : Type} (x : RM α), P x → P (RM.captured x)
-  cleanup : ∀ (x : RM Unit) (c : RC → RC), P x → P (RM.withCleanup x c)
+  /-- the bracketing combinators: the only places where the frame changes -/
+  withBlock : ∀ {α : Type} (b : Block) (x : RM α), Q x → P (RM.withBlock b x)
+  escOffReset : ∀ {α : Type} (x : RM α), P x → P (RM.escOffReset x)
+  escOffSaved : ∀ {α : Type} (x : RM α), P x → P (RM.escOffSaved x)
+  partialScope : ∀ (isPB : Bool) (merged : Json) (indent : Option Str) (pb : Option Tmpl) (x : RM Unit),
+    P x → P (RM.partialScope isPB merged indent pb x)
   -- leaves whose bodies mention `panic` (shown unreachable per predicate)
   navigate : ∀ root segs blocks, P (navigate root segs blocks)
 
@@ -62,15 +75,13 @@ theorem indentAwareWrite (v : Str) : R.P (Hbs.indentAwareWrite v) := by
   simp only [RM.bind_def, RM.pure_def]
   repeat' with_reducible first
     | exact R.ret _
-    | exact R.modify _
+    | exact R.modifyAux _
     | exact R.get
     | exact R.write _
     | exact R.writeIndented _ _
     | apply R.bnd
     | intro _
     | split
-
-theorem modifyFrontBlock (f : Block → Block) : R.P (Hbs.modifyFrontBlock f) := R.modify _
 
 /-- the predicate holds of every function of the renderer at a given fuel -/
 structure All (reg : Registry) (root : Json) (fuel : Nat) : Prop where
@@ -82,7 +93,7 @@ structure All (reg : Registry) (root : Json) (fuel : Nat) : Prop where
   decoFromTemplate : ∀ dt, R.P (Hbs.decoFromTemplate reg root fuel dt)
   callHelperForValue : ∀ d h, R.P (Hbs.callHelperForValue reg root fuel d h)
   callHelper : ∀ d h, R.P (Hbs.callHelper reg root fuel d h)
-  eachLoop : ∀ t h p len items, R.P (Hbs.eachLoop reg root fuel t h p len items)
+  eachLoop : ∀ t h p len items, R.Q (Hbs.eachLoop reg root fuel t h p len items)
   renderHelper : ∀ ht, R.P (Hbs.renderHelper reg root fuel ht)
   renderElem : ∀ e, R.P (Hbs.renderElem reg root fuel e)
   renderExpression : ∀ ht, R.P (Hbs.renderExpression reg root fuel ht)
@@ -95,7 +106,6 @@ structure All (reg : Registry) (root : Json) (fuel : Nat) : Prop where
 macro "rm_auto" R:ident ih:ident : tactic => `(tactic|
   repeat' with_reducible first
     | exact ($R).ret _
-    | exact ($R).modify _
     | exact ($R).get
     | exact ($R).throw _
     | exact ($R).throwR _
@@ -104,7 +114,6 @@ macro "rm_auto" R:ident ih:ident : tactic => `(tactic|
     | exact ($R).indentAwareWrite _
     | exact ($R).evaluate2 _ _
     | exact ($R).evaluate _ _
-    | exact ($R).modifyFrontBlock _
     | exact ($ih).expandAsName _
     | exact ($ih).expandParam _
     | exact ($ih).expandParams _
@@ -124,10 +133,15 @@ macro "rm_auto" R:ident ih:ident : tactic => `(tactic|
     | exact ($ih).expandPartial _
     | exact decorateRender_reason _ _
     | exact decorateEval_reason _ _
+    | exact ($R).modifyAux _
     | apply ($R).mapErr
     | apply ($R).captured
-    | apply ($R).cleanup
+    | apply ($R).withBlock
+    | apply ($R).escOffReset
+    | apply ($R).escOffSaved
+    | apply ($R).partialScope
     | apply ($R).bnd
+    | apply ($R).sub
     | intro _
     | split)
 
@@ -141,7 +155,7 @@ theorem all_zero (reg : Registry) (root : Json) : R.All reg root 0 := by
   · intro p; simp only [Hbs.decoFromTemplate]; exact R.outOfFuel
   · intro d h; simp only [Hbs.callHelperForValue]; exact R.outOfFuel
   · intro d h; simp only [Hbs.callHelper]; exact R.outOfFuel
-  · intro t h p l i; simp only [Hbs.eachLoop]; exact R.outOfFuel
+  · intro t h p l i; simp only [Hbs.eachLoop]; exact R.sub _ R.outOfFuel
   · intro p; simp only [Hbs.renderHelper]; exact R.outOfFuel
   · intro p; simp only [Hbs.renderElem]; exact R.outOfFuel
   · intro p; simp only [Hbs.renderExpression]; exact R.outOfFuel
@@ -162,7 +176,13 @@ theorem all_succ (reg : Registry) (root : Json) (fuel : Nat) (ih : R.All reg roo
   · intro dt; simp only [Hbs.decoFromTemplate, RM.bind_def, RM.pure_def]; rm_auto R ih
   · intro d h; simp only [Hbs.callHelperForValue, RM.bind_def, RM.pure_def]; rm_auto R ih
   · intro d h; simp only [Hbs.callHelper, RM.bind_def, RM.pure_def]; rm_auto R ih
-  · intro t h p len items; cases items <;> simp only [Hbs.eachLoop, RM.bind_def, RM.pure_def] <;> rm_auto R ih
+  · intro t h p len items
+    cases items with
+    | nil => simp only [Hbs.eachLoop, RM.pure_def]; exact R.sub _ (R.ret _)
+    | cons it rest =>
+      obtain ⟨i, key, rel, v⟩ := it
+      simp only [Hbs.eachLoop, RM.bind_def]
+      exact R.qbnd _ _ (R.frontMod _) (fun _ => R.qbnd _ _ (R.sub _ (ih.renderTemplate _)) (fun _ => ih.eachLoop _ _ _ _ _))
   · intro ht; simp only [Hbs.renderHelper, RM.bind_def, RM.pure_def]; rm_auto R ih
   · intro e; simp only [Hbs.renderElem, RM.bind_def, RM.pure_def]; rm_auto R ih
   · intro ht; simp only [Hbs.renderExpression, RM.bind_def, RM.pure_def]; rm_auto R ih
